@@ -458,6 +458,20 @@ func c13(c *Ctx) {
 	r.Floor("C13.E6", 3)
 	r.Floor("C13.E7", 1)
 	r.Floor("C13.E8", 1)
+	// the configured names and passwords are what the operator of the network wrote: a node restored from a snapshot must
+	// not hold entries nobody configured (make([]T, n) + append leaves n entries with the empty name and password, which
+	// `PASS services=` / `OPER "" ""` then match)
+	if um := c.P.Func("ircserver.(*IRCServer).Unmarshal"); um != nil {
+		inConfig := func(t *types.Slice) bool {
+			n := astx.NamedOf(t.Elem())
+			return n != nil && n.Obj().Pkg() != nil && n.Obj().Pkg().Path() == pathConfig
+		}
+		for fi := range c.closure([]*load.FuncInfo{um}) {
+			if load.ShortPkg(fi.Pkg.PkgPath) == "ircserver" || load.ShortPkg(fi.Pkg.PkgPath) == "config" {
+				c.lengthDiscipline("C13.E8", fi, inConfig, "a restored node accepts credentials nobody configured (the empty services password, the empty operator name)")
+			}
+		}
+	}
 	r.Floor("C13.E9", 4)
 
 	c.c13AuthOper(f)
